@@ -39,6 +39,10 @@ type walker struct {
 	seenIss  map[string]bool
 	// statistics
 	Refs int
+	// uses[d] = number of references found that are bound to the listed definition object d
+	// (global entities, comdats, numbered metadata nodes, and blocks named by blockaddress /
+	// uselistorder_bb)
+	uses map[interface{}]int
 }
 
 type visitKey struct {
@@ -60,7 +64,11 @@ func (w *walker) add(kind, format string, a ...interface{}) {
 }
 
 // Stats reports how many references were checked.
-type Stats struct{ Refs int }
+type Stats struct {
+	Refs int
+	// Uses counts, per listed definition object, the references bound to that very object.
+	Uses map[interface{}]int
+}
 
 // Check walks m and returns the breaches found (nil if none).
 func Check(m *ir.Module) ([]Issue, Stats) {
@@ -69,7 +77,7 @@ func Check(m *ir.Module) ([]Issue, Stats) {
 		typeDefs: map[types.Type]bool{}, typeName: map[string]types.Type{},
 		comdats: map[*ir.ComdatDef]bool{}, attrs: map[*ir.AttrGroupDef]bool{},
 		mdByID: map[int64]metadata.Definition{}, mdSet: map[interface{}]bool{},
-		visited: map[visitKey]bool{}, seenIss: map[string]bool{}}
+		visited: map[visitKey]bool{}, seenIss: map[string]bool{}, uses: map[interface{}]int{}}
 	// definition sets
 	for _, t := range m.TypeDefs {
 		if prev, ok := w.typeName[t.Name()]; ok && prev != t {
@@ -174,9 +182,12 @@ func Check(m *ir.Module) ([]Issue, Stats) {
 			w.add("global-not-definition", "uselistorder_bb names a function object the module does not list")
 		} else if !w.locals[u.Func][u.Block] {
 			w.add("dummy-block", "uselistorder_bb names a block that is not a block of its function")
+		} else {
+			w.uses[u.Func]++
+			w.uses[u.Block]++
 		}
 	}
-	return w.issues, Stats{Refs: w.Refs}
+	return w.issues, Stats{Refs: w.Refs, Uses: w.uses}
 }
 
 // fields walks the exported fields of the struct that def points to.
@@ -272,6 +283,8 @@ func (w *walker) value(v reflect.Value, ctx *ir.Func) {
 		w.Refs++
 		if !w.globals[x] {
 			w.add("global-not-definition", "a reference to %s is not the object the module lists", x.(interface{ Ident() string }).Ident())
+		} else {
+			w.uses[x]++
 		}
 		return
 	case *constant.BlockAddress:
@@ -289,12 +302,17 @@ func (w *walker) value(v reflect.Value, ctx *ir.Func) {
 				}
 			}
 			w.add("dummy-block", "blockaddress(%s, %s) holds a block that is not a block of that function", f.Ident(), x.Block.Ident())
+		} else {
+			w.uses[f]++
+			w.uses[x.Block]++
 		}
 		return
 	case *ir.ComdatDef:
 		w.Refs++
 		if !w.comdats[x] {
 			w.add("comdat-not-definition", "a reference to comdat $%s is not the object the module lists", x.Name)
+		} else {
+			w.uses[x]++
 		}
 		return
 	case *ir.AttrGroupDef:
@@ -377,6 +395,8 @@ func (w *walker) value(v reflect.Value, ctx *ir.Func) {
 				w.add("metadata-not-listed", "a reference to !%d is a node the module does not list", id)
 			case def != md:
 				w.add("metadata-copy", "a reference to !%d is not the node the module lists as definition !%d", id, id)
+			default:
+				w.uses[md]++
 			}
 			return
 		}
